@@ -40,7 +40,11 @@ def maskTags : List Tag :=
 
 def filterOfMask (mask : Nat) : List Rule :=
   let specific := (maskTags.zipIdx.filter (fun (_, k) => mask.testBit k)).map (fun (t, _) => (⟨t.name, false, .warn⟩ : Rule))
-  if mask.testBit 30 then permissiveFilter ++ specific else specific
+  -- bit 29: exact-match rules whose tags are proper prefixes of real tags (must downgrade nothing)
+  let nearMiss : List Rule := if mask.testBit 29 then
+    ["policy-commitment-fee", "policy-commitment-htlc", "policy-commitment", "policy-mutual",
+     "policy-channel-contest-delay-range"].map (fun t => (⟨t, false, .warn⟩ : Rule)) else []
+  if mask.testBit 30 then permissiveFilter ++ nearMiss ++ specific else nearMiss ++ specific
 
 structure St where
   policy : Policy
@@ -177,10 +181,13 @@ def step (st : St) (toks : List String) : St × String :=
           | some (recv, [flag]) =>
             let i : Info := Info.new false tc th off recv fr
             -- bit 0: good signatures; bit 1: phase-1 entry point (used only when the harness can build the tx)
-            if flag ≥ 2 && buildable st.setup n th tc (off ++ recv) then
-              applyRes st (validateHolderPhase1 st.policy st.setup st.chain st.es n i (b (flag % 2)))
+            -- the harness cannot produce counterparty HTLC signatures when the HTLC transaction itself cannot
+            -- be built (value below its fee): then it always hands over bad signatures
+            let sigsOk := b (flag % 2) && !htlcTxUnderflow st.setup i
+            if flag ≥ 2 && buildable st.setup n th tc (off ++ recv) && !htlcTxUnderflow st.setup i then
+              applyRes st (validateHolderPhase1 st.policy st.setup st.chain st.es n i sigsOk)
             else
-              applyRes st (validateHolderPhase2 st.policy st.setup st.chain st.es n i (b (flag % 2)))
+              applyRes st (validateHolderPhase2 st.policy st.setup st.chain st.es n i sigsOk)
           | _ => (st, "bad-op")
       | "revoke", [n] =>
         if !st.ready then (st, "nochan") else applyRes st (revokeHolder st.policy st.es n)
